@@ -330,7 +330,11 @@ class C02(Check):
                 tmpl = Template(case["backend"], str(d))
                 tmpl.build(build_seed)
                 ex = Exec(case, tmpl, ip)
-                if case["mode"] == "dfs":
+                if case.get("_replay_schedule") is not None and case["mode"] == "dfs":
+                    dev = [tuple(x) for x in case["_replay_schedule"]]
+                    strat = Scripted(dev)
+                    self._record(case, dev, ex.run(strat), res)
+                elif case["mode"] == "dfs":
                     def run_once(dev: Sequence[Tuple[int, str, int]]) -> Tuple[Scripted, Any]:
                         strat = Scripted(dev)
                         return strat, ex.run(strat)
